@@ -77,6 +77,12 @@ pub struct Tiny2 {
     pub x: u16,
 }
 
+/// a message with nothing in it (its archived form has size zero), answered with `()`
+#[repr(C)]
+#[derive(Serialize, Deserialize, Archive, PartialEq, Debug, Clone)]
+#[archive(check_bytes)]
+pub struct Nothing;
+
 pub struct EchoSvc {
     /// every invocation: the value the handler observed
     pub seen: Rc<RefCell<Vec<Echo>>>,
@@ -91,6 +97,21 @@ impl RpcService for EchoSvc {
         r.add_handler::<Tiny3>();
         r.add_handler::<Tiny5>();
         r.add_handler::<Tiny2>();
+        r.add_handler::<Nothing>();
+    }
+}
+
+thread_local! {
+    /// invocations of the `Nothing` handler
+    static NOTHING_CALLS: std::cell::Cell<u64> = std::cell::Cell::new(0);
+}
+
+#[datacake_rpc::async_trait]
+impl Handler<Nothing> for EchoSvc {
+    type Reply = ();
+    async fn on_message(&self, _msg: Request<Nothing>) -> Result<(), Status> {
+        NOTHING_CALLS.with(|c| c.set(c.get() + 1));
+        Ok(())
     }
 }
 
@@ -355,7 +376,7 @@ impl Check for C12 {
         "E2: server host (real datacake-rpc Server + echo service that logs every handler invocation) and client host (real RpcClient, plus a raw hyper HTTP/2 client for damaged requests and a same-URI impostor service for damaged replies) over simulated TCP; frame corruption enumerated at DataView::using, the decision point both directions share"
     }
     fn rule(&self) -> &'static str {
-        "Cases: seeded message values (fixed-size struct, strings, byte vectors empty..max, nested options and vectors, one value in eight with a flat list of 1500-6000 small structs; a quarter make the handler fail with a seeded error code and message). Per value: (1) through the real client and server (plus three small messages of 3, 5 and 2 bytes, whose archived forms have alignment below 4 and lengths that are not multiples of 4, answered by a handler that increments every component): handler-observed value == sent, reply == handler's, error code and message identical, exactly one invocation; (2) at DataView::using for the request frame, the reply frame and a Status frame: EVERY single-bit flip (frames <= 1 KiB; 4096 seeded flips above), EVERY truncation length (<= 2 KiB; 1024 seeded above), extensions by 1..16 bytes, and EVERY length below size_of(archived root) as an all-zero and a random body with a CORRECT checksum; (3) a seeded sample of those damaged frames is sent through the network - requests by a raw HTTP/2 POST to the real URI, replies by an impostor service on the same URI - with latency and an optional link hold; (4) up to six valid request frames and six valid reply frames are delivered in 2-9 pieces at seeded cut points without a declared body length (a streaming peer) and must be observed unchanged. Oracle: damaged/short frames are refused (Err / InvalidPayload), no handler runs on them, nothing panics (debug assertions and overflow checks are on). Non-trivial = every case (each runs thousands of corruptions). Distinct = hash of the value seed and sizes."
+        "Cases: seeded message values (fixed-size struct, strings, byte vectors empty..max, nested options and vectors, one value in eight with a flat list of 1500-6000 small structs; a quarter make the handler fail with a seeded error code and message). Per value: (1) through the real client and server (plus a message and a reply of size zero, and three small messages of 3, 5 and 2 bytes, whose archived forms have alignment below 4 and lengths that are not multiples of 4, answered by a handler that increments every component): handler-observed value == sent, reply == handler's, error code and message identical, exactly one invocation; (2) at DataView::using for the request frame, the reply frame and a Status frame: EVERY single-bit flip (frames <= 1 KiB; 4096 seeded flips above), EVERY truncation length (<= 2 KiB; 1024 seeded above), extensions by 1..16 bytes, and EVERY length below size_of(archived root) as an all-zero and a random body with a CORRECT checksum; (3) a seeded sample of those damaged frames is sent through the network - requests by a raw HTTP/2 POST to the real URI, replies by an impostor service on the same URI - with latency and an optional link hold; (4) up to six valid request frames and six valid reply frames are delivered in 2-9 pieces at seeded cut points without a declared body length (a streaming peer) and must be observed unchanged. Oracle: damaged/short frames are refused (Err / InvalidPayload), no handler runs on them, nothing panics (debug assertions and overflow checks are on). Non-trivial = every case (each runs thousands of corruptions). Distinct = hash of the value seed and sizes."
     }
     fn assumptions(&self) -> Vec<String> {
         vec![
@@ -565,8 +586,16 @@ impl Check for C12 {
                     let r3 = client.send(&t3).await.ok().and_then(|r| r.deserialize_view().ok()).map(|r: Tiny3| r);
                     let r5 = client.send(&t5).await.ok().and_then(|r| r.deserialize_view().ok()).map(|r: Tiny5| r);
                     let r2 = client.send(&t2).await.ok().and_then(|r| r.deserialize_view().ok()).map(|r: Tiny2| r);
+                    let calls_before = NOTHING_CALLS.with(|c| c.get());
+                    let r0 = client.send(&Nothing).await.map(|_| ()).map_err(|e| format!("{:?}: {}", e.code, e.message));
+                    let calls = NOTHING_CALLS.with(|c| c.get()) - calls_before;
                     let mut o = net_out.borrow_mut();
                     o.probe("small_messages_exchanged");
+                    if calls != 1 {
+                        o.violate("C12/empty-message-handler-not-invoked-exactly-once", format!("value #{i}: a message of size zero: the handler ran {calls} times (client: {:?})", r0));
+                    } else if let Err(e) = &r0 {
+                        o.violate("C12/empty-reply-refused", format!("value #{i}: the handler answered (), the client got {e}"));
+                    }
                     let w3 = Tiny3 { r: t3.r.wrapping_add(1), g: t3.g.wrapping_add(1), b: t3.b.wrapping_add(1) };
                     if r3.as_ref() != Some(&w3) {
                         o.violate("C12/small-message-not-delivered-intact", format!("value #{i}: sent {:?}, the handler answers observed+1, client got {:?} instead of {:?}", t3, r3, w3));
